@@ -59,8 +59,9 @@ def _plan(cur, step, k):
     if entry == 'extend_default':
         if not right and len(cur['outputs']) == len(oi) and len(set(oi)) == len(oi):
             return dict(entry=entry, this=list(cur['outputs']), other=list(oi), right=False, other_nl=other)
-        if right and len(ci) == len(other['outputs']):
-            return dict(entry=entry, this=list(ci), other=list(other['outputs']), right=True, other_nl=other)
+        oo = other['outputs']
+        if right and len(ci) == len(oo) and not any(typ_o[o] == 'INPUT' and oo.count(o) > 1 for o in oo):
+            return dict(entry=entry, this=list(ci), other=list(oo), right=True, other_nl=other)
     # explicit connectors from the abstract pairs
     this, oth = [], []
     for a, b in step['pairs']:
